@@ -498,7 +498,8 @@ def main():
             iv = [mdl.eval(x, model_completion=True).as_long() for x in (i0, i1, i2)]
             bv = [z3.is_true(mdl.eval(x, model_completion=True)) for x in (b0, b1, b2)]
             k = [kc[x] for x in ks] + [4] * (3 - len(ks))
-            return {"op": order.index(opc), "kinds": k, "ints": iv, "bools": bv}
+            sc = {"call": 0, "ident": 1, "select": 2, "literal": 3}
+            return {"op": order.index(opc), "kinds": k, "ints": iv, "bools": bv, "shapes": [sc[x] for x in shapes] + [0] * (3 - len(shapes))}
 
         def on_path(res, e):
             probs = judge(opc, ks, node, res, e)
@@ -634,7 +635,7 @@ def main():
         if f.get("replay") is None and f.get("panics") and f["panics"][0].get("model"):
             mdl = f["panics"][0]["model"]
             f["replay"] = {"op": order.index(f["opcode"]), "kinds": [kc[x] for x in f["operands"]] + [4] * (3 - len(f["operands"])),
-                           "ints": mdl["ints"], "bools": mdl["bools"]}
+                           "ints": mdl["ints"], "bools": mdl["bools"], "shapes": [0, 0, 0]}
     if outp:
         json.dump(out, open(outp, "w"), indent=1)
     for f in failures[:6]:
